@@ -2,6 +2,7 @@
 //! It executes the real library, decodes text into the abstract form and logs ndjson events; TLC judges.
 
 mod api;
+mod attack;
 mod gen;
 mod jt;
 mod keys;
@@ -38,9 +39,13 @@ fn main() {
             }
             rich::run(
                 &mut ctx,
-                &rich::RichOpts { n: num("n", 200) as usize, seed: num("seed", 1), tree, arbitrary_sel: get("arbsel", "0.2").parse().unwrap(), bad_paths: true, also_verify_issued: true },
+                &rich::RichOpts { n: num("n", 200) as usize, seed: num("seed", 1), tree, arbitrary_sel: get("arbsel", "0.2").parse().unwrap(), bad_paths: true, also_verify_issued: true, xfmt: get("xfmt", "0") == "1", only_issue: get("only", "") == "issue" },
             );
         }
+        "attack" => attack::run(
+            &mut ctx,
+            &attack::AttackOpts { n: num("n", 2) as usize, seed: num("seed", 1), family: get("family", "all"), stride: num("stride", 7) as usize, both_formats: get("both", "1") == "1" },
+        ),
         "replay" => replay::run(&mut ctx, &replay::ReplayOpts { scn: get("scn", "scn.ndjson"), limit: num("n", 1_000_000) as usize, matrix: get("matrix", "1") == "1", seed: num("seed", 1) }),
         d => {
             eprintln!("unknown driver {d}");
